@@ -197,7 +197,14 @@ def accepted(cls, args):
         e = cls(*args)
     except Exception:
         return False
-    return type(e.args) is tuple and enc(list(e.args)) == enc(list(args)) and not vars(e)
+    if type(e) is not cls or type(e.args) is not tuple or enc(list(e.args)) != enc(list(args)) or vars(e):
+        return False
+    try:
+        import traceback
+        traceback.format_exception(type(e), e, None)    # CPython itself must be able to print it (e.g. SyntaxError(5, "abcdef") is not)
+    except Exception:
+        return False
+    return True
 
 
 ATTR_NAMES = ["detail", "code2", "x_info", "payload", "remote_id", "extra_data", "ctx", "Info", "v1"]
@@ -257,13 +264,15 @@ def gen_cases(ctx, rng, n_extra):
         ser = rng.choice(SERS)
         q = rng.choice(classes)
         cls = cmap[q]
-        shapes = [a for a in arg_shapes(rng, ser, cls) if accepted(cls, a) and len(a) > 0] or [None]
+        shapes = [a for a in arg_shapes(rng, ser, cls) if accepted(cls, a)]
+        if not shapes:
+            continue
         base = rng.choice(shapes)
         u = Unser(rng.choice(["object", "lock", "builtin", "event-method"]))
         where = rng.choice(["attr", "attr-nested", "arg"])
-        args = list(base) if base is not None else []
+        args = list(base)
         attrs = gen_attrs(rng, ser, cls, tuple(args))
-        if where == "arg" and base is not None and cls.__name__ not in ("UnicodeEncodeError", "UnicodeDecodeError", "UnicodeTranslateError"):
+        if where == "arg" and cls.__name__ not in ("UnicodeEncodeError", "UnicodeDecodeError", "UnicodeTranslateError"):
             args2 = args + [u] if rng.random() < 0.5 else [u] + args
             try:
                 ok = enc(list(cls(*R.realise(tuple(args2))).args)[:0]) == "L()" and len(cls(*R.realise(tuple(args2))).args) == len(args2)
@@ -343,6 +352,7 @@ def run_call(rig, cmap, c):
     o.str_exc, o.type_repr = str(e), str(type(e))
     ser = c["ser"]
     kind = c["kind"]
+    o.kind = kind
     rig.H.exc = e
     before = [R.realise(v) for v in from_js(c.get("before", []))]
     rig.H.before = before
@@ -420,7 +430,9 @@ def real_line(o, derr):
             outcome = "raised:" + R.enc_caught(x, msg_map)
         else:
             outcome = "raised:" + R.enc_machinery_error(x)
-    return "%s y=%s rel=%d usable=%d" % (outcome, enc(o.yielded, True), 1 if o.released else 0, 1 if o.next == "ok" else 0)
+    # the items a stream delivered before the failing one are separate calls: not part of this call's observation
+    return "%s y=%s rel=%d usable=%d" % (outcome, enc([] if o.kind == "i" else o.yielded, True), 1 if o.released else 0,
+                                         1 if o.next == "ok" else 0)
 
 
 def model_line(out):
